@@ -31,6 +31,8 @@ def read_rpu_file(path):
 
 def run(args, cwd=None, env=None, timeout=120, stdin=None):
     e = dict(os.environ)
+    e.setdefault("RUST_BACKTRACE", "0")
+    e["RUST_LIB_BACKTRACE"] = "0"
     if env:
         e.update(env)
     try:
